@@ -146,12 +146,41 @@ class Program:
                 if t.startswith('mut '):
                     t = t[4:]
                 self.closures[t] = b
+        self._generics = {}
         self.promoted = {}
         for b in self.bodies:
             m = re.match(r'^(.*)::promoted\[(\d+)\]$', b.name)
             if m:
                 fn_tail = re.sub(r'<impl at [^>]*>', '<impl>', m.group(1))
                 self.promoted[(last_fn_name(m.group(1)), int(m.group(2)))] = b
+
+
+def _source_generics(name):
+    """ordered type parameters of `fn name<...>` read from the repository source (None if not found / not generic)"""
+    import glob
+    from .mirgen import REPO
+    base = name.split('::')[-1]
+    rx = re.compile(r'fn\s+' + re.escape(base) + r'\s*<([^>(]*(?:<[^>]*>[^>(]*)*)>\s*\(')
+    found = []
+    for p in sorted(glob.glob(os.path.join(REPO, 'src', '**', '*.rs'), recursive=True)):
+        for mo in rx.finditer(open(p).read()):
+            gens = [g.strip() for g in split_top(mo.group(1)) if g.strip()]
+            gens = [re.split(r'[:\s]', g)[0] for g in gens if not g.startswith("'")]
+            found.append(gens)
+    if len(found) == 1:
+        return found[0]
+    if found and all(x == found[0] for x in found):
+        return found[0]
+    return None
+
+
+def _generics_of(self, d):
+    if d.name not in self._generics:
+        self._generics[d.name] = _source_generics(d.method)
+    return self._generics[d.name]
+
+
+Program.generics_of = _generics_of
 
 
 def last_fn_name(path):
@@ -528,6 +557,13 @@ class Machine:
                     return not x
                 if z3.is_bool(x):
                     return z3.Not(x)
+            if op == 'PtrMetadata':
+                from .summaries import as_slice, str_items, deref as _deref
+                v = _deref(x)
+                try:
+                    return len(as_slice(v))
+                except Unsupported:
+                    return len(str_items(v))
             raise Unsupported('unop ' + op)
         if k == 'discriminant':
             v = self.read_place(frame, rv.args[0])
@@ -798,7 +834,13 @@ class Machine:
                 raise Unsupported('ambiguous call %s %r -> %r' % (f, arg_tys, [c[0].name for c in cands]))
             d, env = cands[0]
             tyenv = {k: ty_to_str(v) for k, v in env.items()}
-            # explicit turbofish on free generic fns:  name::<A, B>
+            # explicit turbofish on generic fns:  name::<A, B>  binds the declared type parameters in order
+            tf = turbofish_args(f)
+            if tf:
+                gens = self.prog.generics_of(d)
+                if gens and len(gens) == len(tf):
+                    for g, a in zip(gens, tf):
+                        tyenv.setdefault(g, a)
             return self.call_body(d.body, args, tyenv)
         # 1b. blanket  Into -> From
         if f.startswith('<') and f.endswith('>::into'):
@@ -820,6 +862,24 @@ class Machine:
             raise Unsupported('no summary for %s %r' % (f, arg_tys))
         self.stats.summaries[h[0]] += 1
         return h[1](self, h[2], args, arg_tys, dest_ty)
+
+
+def turbofish_args(f):
+    """type arguments of a trailing ::<...> on a call path (lifetimes already stripped)"""
+    if not f.endswith('>'):
+        return None
+    depth = 0
+    for i in range(len(f) - 1, -1, -1):
+        c = f[i]
+        if c == '>' and not f.startswith('->', i - 1):
+            depth += 1
+        elif c == '<':
+            depth -= 1
+            if depth == 0:
+                break
+    if i < 2 or f[i - 2:i] != '::':
+        return None
+    return [a for a in split_top(f[i + 1:-1]) if a and not a.startswith("'")]
 
 
 def generic_vars(cand):
